@@ -67,6 +67,8 @@ def silent(ck, an):
         n += 1
         vals = list(node.args[:1]) + [k.value for k in node.keywords if k.arg == "raise_if_broke"]
         off = [v for v in vals if not (isinstance(v, ast.Constant) and v.value is True)]
+        if off and f.qual in new_api_functions(an):
+            continue        # an accessor new to the inventory that no reviewed function reaches: a query the user makes, not a step of the episode
         ck.check(not off, "ARGFLOW", "S1.no-silent-valuation", f.short, f"{f.module.relpath}:{node.lineno}", f"{f.short} values the account with the raising default",
                  f"{f.short} calls net_liquidation_value({ast.unparse(off[0]) if off else ''}): a non-positive NLV is returned silently instead of ending the episode", construct=stmt_text(node))
     ck.floor("callers of Broker.net_liquidation_value", n, 6)
